@@ -228,6 +228,69 @@ Fixpoint index_from {A} (i : nat) (l : list A) : list (nat * A) :=
 Definition spec21 (plan : list (nat * mode * list fop)) (body : list fop) : list fop :=
   spec21_go (S (length body)) plan (length body - 1) (index_from 0 body).
 
+(* ---------- C21, second formulation: one left-to-right pass with a depth counter (the object of the
+   theorem Proofs/LowAlt.lowering_alt_exact) ---------- *)
+(* the depth-counter specification *)
+Section DSpec.
+Variable plan : list (nat * mode * list fop).
+Variable last : nat.
+
+Definition B i := acc_code plan i MBefore.
+Definition A i := acc_code plan i MAfter.
+Definition R i := acc_repl plan i MAlternate None.
+Definition BA i := acc_repl plan i MBlockAlt None.
+
+(* an instruction rendered as in C15 *)
+Definition rend (i : nat) (op : fop) : list fop :=
+  B i ++ (if last <=? i then [op] else match R i with Some a => a | None => [op] end) ++ (if last <=? i then [] else A i).
+(* an instruction inside a removed region: the instruction is gone (before/after probes the user put on it
+   are still emitted: C21's quantifier excludes such plans) *)
+Definition rend_del (i : nat) (op : fop) : list fop :=
+  B i ++ (if last <=? i then [op] else []) ++ (if last <=? i then [] else A i).
+(* the opener (or else) of a replaced construct *)
+Definition rend_alt (i : nat) (op : fop) (alt : list fop) : list fop :=
+  B i ++ (if last <=? i then [op]
+          else match alt with [] => [] | _ => match R i with Some a => a ++ alt | None => alt end end)
+      ++ (if last <=? i then [] else A i).
+
+Fixpoint dspec (i : nat) (depth : nat) (del : option nat) (retain : bool) (l : list fop) : list fop :=
+  match l with
+  | [] => []
+  | op :: l' =>
+      match op with
+      | FBlock _ | FLoop _ | FIf _ =>
+          match del, BA i with
+          | None, Some alt => rend_alt i op alt ++ dspec (S i) (S depth) (Some depth) false l'
+          | Some _, _ => rend_del i op ++ dspec (S i) (S depth) del retain l'
+          | None, None => rend i op ++ dspec (S i) (S depth) None retain l'
+          end
+      | FElse =>
+          match del, BA i with
+          | None, Some alt => rend_alt i op alt ++ dspec (S i) depth (Some (depth - 1)) true l'
+          | Some _, _ => rend_del i op ++ dspec (S i) depth del retain l'
+          | None, None => rend i op ++ dspec (S i) depth None retain l'
+          end
+      | FEnd =>
+          match depth with
+          | O => rend i op ++ dspec (S i) O del retain l'
+          | S d =>
+              match del with
+              | Some dd =>
+                  if Nat.eqb dd d
+                  then (if retain then rend i op else rend_del i op) ++ dspec (S i) d None true l'
+                  else rend_del i op ++ dspec (S i) d del retain l'
+              | None => rend i op ++ dspec (S i) d None retain l'
+              end
+          end
+      | _ =>
+          match del with
+          | Some _ => rend_del i op ++ dspec (S i) depth del retain l'
+          | None => rend i op ++ dspec (S i) depth None retain l'
+          end
+      end
+  end.
+End DSpec.
+
 (* positions removed by the block-alternates of the plan (the construct from its opener through its end;
    for else: the else and its arm), computed with the same traversal *)
 Fixpoint removed_go (fuel : nat) (plan : list (nat * mode * list fop)) (l : list (nat * fop)) : list nat :=
@@ -275,7 +338,12 @@ Definition domain21 (c : lcase) : bool :=
 
 Definition holds21 (c : lcase) : bool :=
   match c_obs c with
-  | Some (b, g) => obs_is (spec21 (c_plan c) (c_body c)) b && (groups_eqb (c_groups c) g || negb (framed (spec21 (c_plan c) (c_body c))))
+  | Some (b, g) =>
+      obs_is (spec21 (c_plan c) (c_body c)) b && (groups_eqb (c_groups c) g || negb (framed (spec21 (c_plan c) (c_body c))))
+      (* the region formulation and the depth-counter formulation coincide whenever the plan uses only the four
+         modes of the theorem *)
+      && (negb (forallb (fun e => match snd (fst e) with MBefore | MAfter | MAlternate | MBlockAlt => true | _ => false end) (c_plan c))
+          || list_eqb fop_eqb (spec21 (c_plan c) (c_body c)) (dspec (c_plan c) (length (c_body c) - 1) 0 1 None true (c_body c)))
   | None => false
   end.
 
